@@ -315,11 +315,12 @@ def run_loads(binp, docs, tag, want=("tokens", "tree"), a2ml=None, timeout=3000)
     inp = os.path.join(vlib.scratch(), f"loadop_{tag}.ndjson")
     outp = os.path.join(vlib.scratch(), f"loadop_{tag}.out")
     vlib.write_ndjson(inp, [{"id": i, "text": t, "strict": s, "want": list(want), **({"a2ml": a2ml} if a2ml else {})} for i, (t, s) in enumerate(docs)])
-    rc, lines, err = vlib.run_harness(binp, ["load-op", "--cases", inp, "--out", outp], timeout=timeout)
-    if rc != 0:
-        vlib.tool_error(f"load-op failed rc={rc}: {err[-600:]}")
-    with open(outp) as f:
-        return [json.loads(l) for l in f if l.strip()]
+    # a load that hangs is data: the case comes back as {"hang": True, "panic": "..."} (checks treat it like a panic)
+    results, hangs = vlib.run_cases_resilient(binp, "load-op", inp, outp, len(docs))
+    for r in results:
+        if r.get("hang"):
+            r["panic"] = "load did not return (hang, no progress for 20 s)" if not r.get("not_run") else "not run: too many hangs before this case"
+    return results
 
 
 LAYOUT_KEYS = ("line", "uid", "start_offset", "end_offset", "incfile")
